@@ -932,6 +932,8 @@ var c16PointNames = map[int]string{6: "rewrite.aof.tmp written and closed", 7: "
 const c16KeyRemoveBeforeRename = "C16:crash-after-inputs-removed-before-rename"
 const c16KeyBetweenRenames = "C16:crash-between-the-two-renames"
 
+var c16Probe = "" // key of the finding a replay is probing: its own tolerance is switched off
+
 type c16Info struct {
 	inputs   int
 	images   int
@@ -974,7 +976,7 @@ func c16Run(c *aCase, next func(e *aEnv) []aOp) (info c16Info, err error) {
 		dir   string
 	}
 	var images []image
-	known := vIsKnown(c16KeyRemoveBeforeRename)
+	known := vIsKnown(c16KeyRemoveBeforeRename) && c16Probe != c16KeyRemoveBeforeRename
 	removed := false
 	vSetYieldExtra(func(point int) {
 		name, ok := c16PointNames[point-verifPointAofRewrite+5]
@@ -993,7 +995,7 @@ func c16Run(c *aCase, next func(e *aEnv) []aOp) (info c16Info, err error) {
 			info.skipped++
 			return
 		}
-		if p == 9 && vIsKnown(c16KeyBetweenRenames) {
+		if p == 9 && vIsKnown(c16KeyBetweenRenames) && c16Probe != c16KeyBetweenRenames {
 			info.skipped++
 			return
 		}
@@ -1141,6 +1143,7 @@ func TestC16_Replay(t *testing.T) {
 		}
 		c.Prop = "C16"
 		i := 0
+		c16Probe = key
 		_, rerr := c16Run(&c, func(e *aEnv) []aOp {
 			if i >= len(c.Ops) {
 				return nil
@@ -1148,6 +1151,7 @@ func TestC16_Replay(t *testing.T) {
 			i++
 			return c.Ops[i-1 : i]
 		})
+		c16Probe = ""
 		msg := ""
 		if rerr != nil {
 			msg = strings.SplitN(rerr.Error(), "\n", 2)[0]
